@@ -32,7 +32,7 @@ ASSUMPTIONS = ["the bus answers AddMatch / RemoveMatch / GetNameOwner (no error 
                "a well-known destination); proxy with a well-known destination = NameOwnerChanged rule from its first signal "
                "stream until dropped"]
 PARTIAL = ["C37_mirror_partial", "C37_refcount_partial", "C37_in_use_registered_partial", "C37_registered_accounted_partial",
-           "C37_no_premature_remove_partial", "C37_full_statement_refuted", "C37_clone_uncounted_refuted",
+           "C37_no_premature_remove_partial", "C37_oracle_sound_partial", "C37_full_statement_refuted", "C37_clone_uncounted_refuted",
            "C37_name_rules_leak_refuted"]
 
 
